@@ -279,8 +279,35 @@ def layout (rowsPath : String) : IO UInt32 := do
   IO.println s!"LAYOUT rows={n} bad={bad}"
   return (if bad == 0 then 0 else 1)
 
+/-- C15: two traces (default configuration vs another) must be the same model: every unit, every output
+    tree, compared structurally (derived `BEq`, after parsing — node numbering in the files is irrelevant) -/
+def cfgeq (aPath bPath : String) : IO UInt32 := do
+  let ua ← match parseUnits (← IO.FS.readFile aPath) with
+    | .ok u => pure u
+    | .error e => IO.eprintln s!"parse error: {e}"; return 2
+  let ub ← match parseUnits (← IO.FS.readFile bPath) with
+    | .ok u => pure u
+    | .error e => IO.eprintln s!"parse error: {e}"; return 2
+  let mut tb : Std.HashMap String Glm.Unit := {}
+  for u in ub do tb := tb.insert u.name u
+  let mut same := 0
+  let mut diff := 0
+  let mut missing := 0
+  for u in ua do
+    match tb[u.name]? with
+    | none => missing := missing + 1; IO.println s!"CFGMISSING {u.name}"
+    | some w =>
+      if u.outs == w.outs && u.nIn == w.nIn && !u.outs.isEmpty then same := same + 1
+      else
+        diff := diff + 1
+        let comps := (List.range (max u.outs.length w.outs.length)).filter fun j => u.out j != w.out j
+        IO.println s!"CFGDIFF {u.name} comps {comps}"
+  IO.println s!"CFGEQ units={ua.size} same={same} diff={diff} missing={missing}"
+  return (if diff == 0 && missing == 0 then 0 else 1)
+
 def main (args : List String) : IO UInt32 := do
   match args with
+  | ["cfgeq", a, b] => cfgeq a b
   | ["layout", p] => layout p
   | "postval" :: prop :: unit :: comp :: rest =>
     let ins := (rest.takeWhile (· ≠ "--")).toArray.map fun t => Float.ofBits (t.toNat?.getD 0).toUInt64
